@@ -50,6 +50,8 @@ def payloads(kind, props=False):
         out += [('unterminated-comment', '/* never closed')]
     elif kind.startswith('gap:'):
         out += [('stray-symbol', s) for s in SYMS[:2]]
+        if kind == 'gap:col:before-settings':
+            out += [('stray-word-after-type', 'zzzstray'), ('stray-word-after-type', 'garbage words')]
     elif kind.startswith('fault:tok:'):
         out += [('bracket-dropped', 'drop'), ('bracket-doubled', 'double')]
     elif kind.startswith('fault:settings:'):
@@ -157,9 +159,40 @@ def rejected_as_syntax(err):
     return monitors.is_parse_error(err) or type(err) is SyntaxError
 
 
+HANDMADE = [      # (fault class, document): a closing quote that is escaped does not close the literal
+    ('escaped-closing-quote', 'Table t {\n  a int [note: "abc\\"]\n}\n'),
+    ('escaped-closing-quote', "Table t {\n  a int [note: 'abc\\']\n}\n"),
+    ('escaped-closing-quote', 'Table t {\n  a int\n  Note: "abc\\"\n}\n'),
+    ('escaped-closing-quote', "Table t {\n  a int [default: 'abc\\']\n}\n"),
+    ('escaped-closing-quote', 'Project p {\n  k: "v\\"\n}\n'),
+    ('escaped-closing-quote', "Note n {\n  'text\\'\n}\n"),
+    ('escaped-closing-quote', 'Table t {\n  a int\n  indexes {\n    a [name: "n\\"]\n  }\n}\n'),
+    ('stray-word-after-type', 'Table t {\n  id integer garbage [pk]\n}\n'),
+    ('stray-word-after-type', 'Table t {\n  id integer garbage\n}\n'),
+    ('stray-word-after-type', 'Table t {\n  id integer not valid here\n  b int\n}\n'),
+    ('number-with-two-dots', 'Table t {\n  a int [default: 1.2.3]\n}\n'),
+    ('number-with-two-dots', 'Table t {\n  a int [default: 1..2]\n}\n'),
+    ('bare-project-value', 'Project p {\n  version: 2\n}\n'),
+    ('bare-project-value', 'Project p {\n  public: true\n}\n'),
+]
+
+
 def run_shard(spec, tier, seed, budget_s):
     sh = Shard(ID, budget_s)
     i = spec['shard']
+    if i == 0:
+        for fclass, text in HANDMADE:
+            for props in (False, True):
+                sh.case(text + str(props), nontrivial=True, sample={'fault': fclass, 'text': text})
+                sh.count('obs.fault.' + fclass)
+                db, err = parse(text, allow_properties=props)
+                case = {'kind': 'reject-syntax', 'text': text, 'allow_properties': props}
+                if err is None:
+                    sh.violation('accept', f'accepted:{fclass}@handmade', f'{fclass}: {text!r} was accepted', case, {'fault': fclass})
+                elif not rejected_as_syntax(err):
+                    sh.violation('class', f'not-a-syntax-error:{fclass}@handmade:{type(err).__name__}', f'{err}', case, {'fault': fclass})
+                else:
+                    sh.count('obs.rejected_with_syntax_error')
     rng = random.Random(f'{seed}-c07-{i}')
     hosts = {'quick': 10, 'thorough': 200}[tier]
     per_host = {'quick': 45, 'thorough': 10**9}[tier]
